@@ -1152,10 +1152,17 @@ class Tensor:
                     or (op_out_base is parent_data_base)
                     or (op_out is parent_data)
                 ):
-                    if parent_var._base is not None and parent_var._creator is None:
-                        parent_var._base = None
-
-                    base = parent_var if parent_var.base is None else parent_var.base
+                    # A tensor whose graph was cleared, but whose base lingers, owns
+                    # its memory. Its stale `_base` is reset below, together with
+                    # those of the other inputs, once the op can no longer fail.
+                    stale_base = (
+                        parent_var._base is not None and parent_var._creator is None
+                    )
+                    base = (
+                        parent_var
+                        if stale_base or parent_var.base is None
+                        else parent_var.base
+                    )
                     break
             else:
                 parent_var = None
